@@ -23,6 +23,16 @@ FIXES = [  # (grep in subject, property, acceptable classes, witness name)
     ("put into the new connection's output queue", "C07", "C07.stall,C07.disconnect-not-completed,C07.close-did-not-return", "C07-connect-blocked-on-a-full-queue-while-the-teardown-needs-the-mutex"),
     ("capability negotiation state no longer survives", "C19", "C19.req,C19.empty-intersection", "C19-reconnect-requests-capabilities-the-new-server-did-not-advertise"),
 ]
+# Two witnesses cannot be taken on F^ any more: the worlds have grown since, and on those old trees
+# the same violation class is now reached first through defects that were repaired later (the
+# replay then still fails on F).  For them the broken tree is the current HEAD with just that
+# repair undone, and the fixed tree is HEAD.
+UNFIX = {
+    "even when send and the event loop are both blocked": ("revert", None),
+    "Connected() no longer deadlocks": ("edit", ("client/connection.go",
+        "\tconn.connMu.RLock()\n\tdefer conn.connMu.RUnlock()\n\treturn conn.connected",
+        "\tconn.mu.RLock()\n\tdefer conn.mu.RUnlock()\n\treturn conn.connected")),
+}
 only = sys.argv[1:]
 ok = {}
 for pat, prop, classes, name in FIXES:
@@ -36,7 +46,16 @@ for pat, prop, classes, name in FIXES:
     try:
         for seed in range(1, 6):
             wt = os.path.join(tmp, "r")
-            subprocess.check_call(["git", "-C", "/repo", "worktree", "add", "-q", "--detach", wt, h + "^"])
+            if pat in UNFIX:
+                subprocess.check_call(["git", "-C", "/repo", "worktree", "add", "-q", "--detach", wt, "HEAD"])
+                how, arg = UNFIX[pat]
+                if how == "revert":
+                    subprocess.check_call(["git", "-C", wt, "revert", "--no-commit", h], stdout=subprocess.DEVNULL)
+                else:
+                    f = os.path.join(wt, arg[0]); src = open(f).read(); assert arg[1] in src
+                    open(f, "w").write(src.replace(arg[1], arg[2], 1))
+            else:
+                subprocess.check_call(["git", "-C", "/repo", "worktree", "add", "-q", "--detach", wt, h + "^"])
             e = dict(os.environ, VERIF_REPO=wt, VERIF_SEED=str(seed), VERIF_ONLY_CLASS=classes, VERIF_EVIDENCE_DIR=os.path.join(tmp, "ev"), VERIF_REPLAY_DIR=os.path.join(tmp, "rep"))
             r = subprocess.run([os.path.join(VERIF, "check"), prop, "quick"], env=e, capture_output=True, text=True)
             subprocess.call(["git", "-C", "/repo", "worktree", "remove", "--force", wt])
@@ -46,7 +65,7 @@ for pat, prop, classes, name in FIXES:
                 continue
             rep = [l.split("replay=")[1] for l in r.stdout.splitlines() if l.startswith("VIOLATION")][0]
             # the witness must stop failing on the tree with the fix
-            subprocess.check_call(["git", "-C", "/repo", "worktree", "add", "-q", "--detach", wt, h])
+            subprocess.check_call(["git", "-C", "/repo", "worktree", "add", "-q", "--detach", wt, "HEAD" if pat in UNFIX else h])
             e2 = dict(os.environ, VERIF_REPO=wt, VERIF_TRACE_LINES="0")
             r2 = subprocess.run([os.path.join(VERIF, "check"), "replay", rep], env=e2, capture_output=True, text=True)
             subprocess.call(["git", "-C", "/repo", "worktree", "remove", "--force", wt])
@@ -55,6 +74,8 @@ for pat, prop, classes, name in FIXES:
                 os.makedirs(os.path.join(VERIF, "findings"), exist_ok=True)
                 dst = os.path.join(VERIF, "findings", name + ".json")
                 j = json.load(open(rep)); j["found_on_tree"] = "the tree just before fix commit " + h[:7] + " (" + h[:7] + "^); the same vectors pass on " + h[:7]
+                if pat in UNFIX:
+                    j["found_on_tree"] = "the current tree of /repo with the repair " + h[:7] + " undone (all other repairs in place); the same vectors pass on the current tree"
                 json.dump(j, open(dst, "w"), indent=1)
                 ok[name] = True
                 break
